@@ -141,6 +141,15 @@ def cases(draw):
             if n % 4 == 1:
                 hist.append(["g", "G2 X%d.%02d Y%d I%d.5 J0" % (73 + n % 20, n % 100, 70 + n // 20, 1 + n % 3)])
         hist.append(["event", draw(st.sampled_from(["PRINT_DONE", "PRINT_CANCELLED", "PRINT_FAILED"]))])
+    others = [it for it in prog if it[0] == "g" and not it[1].startswith(("G0", "G1", "G2", "G3", "G9", "G28", "G20", "G21"))]
+    if others and draw(st.integers(0, 4)) == 0:
+        # the previous print sent, among its last commands, exactly what this print sends somewhere (M117 Layer 2, M204 S500 ...):
+        # what the printer "already has" is no reason to treat the command differently in a new print
+        hist += [["event", "PRINT_STARTED"], ["g", "G28"]]
+        for _ in range(draw(st.integers(1, 3))):
+            hist.append(others[draw(st.integers(0, len(others) - 1))])
+        if draw(st.booleans()):
+            hist.append(["event", draw(st.sampled_from(["PRINT_DONE", "PRINT_CANCELLED", "PRINT_FAILED"]))])
     if draw(st.integers(0, 5)) == 0:
         prog = prog[1:]          # un-homed program
     if draw(st.integers(0, 2)) == 0:
